@@ -13,7 +13,7 @@ RULE = ('Generated (closure class or alias, hard-core flag, grid r [uniform Doma
         'with high in {1e3,1e6,1e300} / mixture], sigma on/off/below/above the grid). Oracles: published relation outside '
         'the core (rel 1e-12 of the summed term magnitudes, inf/nan-consistent), exactly -1-gamma inside with the flag, '
         'weak-coupling limit |c+u| <= 4(|a|+|b|+1)^2 eps^2, elementwise-ness on sub-samples/permutations, input purity, '
-        'alias identity. Non-trivial = gamma not identically 0, u not identically 0 outside the core and, with the flag, '
+        'alias identity; (reuse) one closure object with potential / sigma / gamma / grid length re-assigned between calls must equal a fresh object every time. Non-trivial = gamma not identically 0, u not identically 0 outside the core and, with the flag, '
         '>=1 grid point on each side of sigma; distinct = spec hash.')
 ASSUMPTIONS = ['grid points in the open band (sigma, sigma+1e-6) are not judged here (contact rule is C10\'s subject)',
                'Martynov-Sarkisov: either published form (bridge sqrt(1+2 gamma) or sqrt(1+2(gamma-u))) is accepted']
@@ -248,4 +248,55 @@ class WeakCoupling(Sub):
         return out
 
 
-SUBS = [Definition(), WeakCoupling()]
+class Reuse(Sub):
+    name = 'reuse'
+    doc = 'one closure object re-used: potential / sigma / gamma (and the grid length) re-assigned between calls; every call must equal a fresh object'
+    budget = {'quick': 800, 'thorough': 48000}
+
+    def strategy(self, tier):
+        base = spec_strategy()
+        step = st.fixed_dictionaries({'gamma': base.map(lambda s: s['gamma']), 'u': base.map(lambda s: s['u']), 'sigma': base.map(lambda s: s['sigma']),
+                                      'keep_u': st.booleans(), 'shorter': st.sampled_from([0, 0, 0, 1, 3])})
+        return st.fixed_dictionaries({'closure': st.sampled_from(sorted(CLASSES)), 'alias': st.booleans(), 'flag': st.booleans(),
+                                      'grid': base.map(lambda s: s['grid']), 'steps': st.lists(step, min_size=2, max_size=5)})
+
+    def check(self, spec):
+        out = Outcome()
+        sig = PID + '/reuse/'
+        which, flag = spec['closure'], spec['flag']
+        r_full = grid(spec)
+        clo = make_closure(which, spec['alias'], flag)
+        prev_u = None
+        changed_u_same_len = False
+        last_len = None
+        for i, stp in enumerate(spec['steps']):
+            n = max(1, len(r_full) - stp['shorter'])
+            r = r_full[:n].copy()
+            gamma = build_gamma(stp, n)
+            if stp['keep_u'] and prev_u is not None and len(prev_u) == n:
+                u = prev_u
+            else:
+                u = build_u(stp, r)
+            sigma = sigma_of(stp, r)
+            if prev_u is not None and len(prev_u) == n and not np.array_equal(prev_u, u):
+                changed_u_same_len = True
+            clo.potential = u.copy()
+            clo.sigma = sigma
+            fresh = make_closure(which, spec['alias'], flag)
+            fresh.potential = u.copy()
+            fresh.sigma = sigma
+            with np.errstate(all='ignore'):
+                c = np.array(clo.calculate(r.copy(), gamma.copy()))
+                cf = np.array(fresh.calculate(r.copy(), gamma.copy()))
+            if c.shape != cf.shape or not np.array_equal(c, cf, equal_nan=True):
+                out.fail(sig + 'result-depends-on-earlier-calls', '%s(apply_hard_core=%s): call %d on a re-used closure object (potential / sigma / gamma re-assigned) differs '
+                         'from a fresh object with the same settings' % (which, flag, i + 1), step=i, n=n, same_length_as_before=(last_len == n))
+                break
+            prev_u = u
+            last_len = n
+        out.nontrivial = changed_u_same_len
+        out.label(which, 'flag' if flag else 'noflag', 'potential-changed-same-length' if changed_u_same_len else 'no-same-length-change')
+        return out
+
+
+SUBS = [Definition(), WeakCoupling(), Reuse()]
